@@ -490,13 +490,9 @@ func Default(d cty.Value) (schema.Expr, error) {
 	case d.Type() == cty.String:
 		x = &schema.Literal{V: d.AsString()}
 	case d.Type() == cty.Number:
-		f := d.AsBigFloat()
-		// If the number is an integer, convert it to an integer.
-		if f.IsInt() {
-			x = &schema.Literal{V: f.Text('f', -1)}
-		} else {
-			x = &schema.Literal{V: f.String()}
-		}
+		// Format the number with as many digits as needed to represent
+		// it exactly, instead of the 10 digits of big.Float.String.
+		x = &schema.Literal{V: d.AsBigFloat().Text('f', -1)}
 	case d.Type() == cty.Bool:
 		x = &schema.Literal{V: strconv.FormatBool(d.True())}
 	case d.Type().IsCapsuleType():
